@@ -60,6 +60,7 @@ def generate(g, tier):
                 m = dict(expect='ok', out=exp_out)
             if tight: m = dict(expect='either')     # a limit near the program's own nesting: only the side effects are judged
             files[src] = text
+            if m.get('expect') == 'fail' and g.chance(0.35): out = r.choice(['newdir/o.txt', 'build/deep/er/payload.txt', 'proj/out/o.txt'])
             stale = r.choice([None, 'STALE PAYLOAD\n', ''])
             if stale is not None and out not in pre and not any(i['output'] == out for i in invs): pre[out] = stale
             inv = dict(cmd='compile', file=src, output=out)
@@ -68,6 +69,21 @@ def generate(g, tier):
             invs.append(inv); metas.append(m)
         if invs:
             cases.append(dict(op='cli', home_cfg=home_cfg, files=files, cfgs=cfgs, pre_files=pre, invocations=invs, meta=dict(family='compile', steps=metas, nocorr=True)))
+    for _ in range(count(tier, 30, 250)):
+        text = 'REM note\nSTRING body\nALTCHAR 65'
+        c1 = dict(include_comments=r.choice([True, False]), flipper_commands=True, stack_limit=r.choice([20, 30]))
+        c2 = dict(include_comments=not c1['include_comments'], flipper_commands=r.choice([True, True, False]), stack_limit=r.choice([50, 7]))
+        def expect(cfg):
+            if not cfg['flipper_commands']: return dict(expect='fail', cls='InvalidCommand', line=3, prints=[])
+            return dict(expect='ok', out=(['REM note'] if cfg['include_comments'] else []) + ['STRING body', 'ALTCHAR 65'])
+        import yaml as _y
+        where = 'proj'       # (the global file is read once per process — one CLI run; only the project file is re-read by every compile)
+        invs = [dict(cmd='compile', file='proj/s.txt', output='o1.txt'),
+                dict(cmd='write', path=('proj/config.yaml' if where == 'proj' else '../home/.duckling/config.yaml'), content=_y.dump(dict(DEFAULTS, **c2) if where == 'home' else c2)),
+                dict(cmd='compile', file='proj/s.txt', output='o2.txt')]
+        steps = [expect(c1), dict(expect='write'), expect(c2)]
+        cases.append(dict(op='cli', home_cfg=(dict(DEFAULTS, **c1) if where == 'home' else None), files={'proj/s.txt': text}, cfgs=({'proj': c1} if where == 'proj' else {}),
+                          pre_files={}, invocations=invs, meta=dict(family='compile', steps=steps, nocorr=True)))
     for _ in range(count(tier, 30, 200)):
         name = r.choice(['demo', 'My Project', 'x1', 'a-b', 'UPPER', 'bad_name', 'é'])
         path = r.choice([None, 'sub', 'deep/er'])
@@ -97,6 +113,7 @@ def oracle(cases, results):
         for k, st in enumerate(r['steps']):
             inv = c['invocations'][k]
             b, a = st['before'], st['after']
+            if inv['cmd'] == 'write': continue
             if st['raised']:
                 fs.append(fail(i, f'invocation {k} {inv} raised {st["raised"]} instead of reporting', f'cli:raised:{st["raised"].split(":")[0]}')); break
             changed = {p for p in set(a) | set(b) if a.get(p) != b.get(p)}
@@ -139,7 +156,7 @@ def oracle(cases, results):
                         if changed - cfg_paths(changed):
                             fs.append(fail(i, f'new on an existing/invalid project changed files: {sorted(changed)}', 'cli:new-touched')); break
                     else:
-                        made = {p for p in a if p not in b}
+                        made = {p for p in a if p not in b and not p.endswith('/')}
                         if made - {p for p in made if p.startswith('home/')} != {base + '/config.yaml', base + '/main.txt'}:
                             fs.append(fail(i, f'new created {sorted(made)}', 'cli:new-files')); break
                         if denote(a[base + '/config.yaml']) != DEFAULTS:
